@@ -209,6 +209,11 @@ def run(ctx):
         pairing(ck, prog, 'dl_write', ('write_data', 2, 3), [('hash_update', 2, 3, 'check_chunk_hash')], config)
         pairing(ck, prog, 'write_and_verify_chunk', ('read_data', 1, 2),
                 [('hash_update', 2, 3, 'check_hash'), ('write_data', 2, 3, None)], config)
+        from . import c06
+        c06.fill_clauses(ck, prog, config, 'C02-a')
+        # ---- f the dictionary chunk is consumed before the data chunks are delivered
+        from ..rules import extra
+        extra.check_dict_consumed(ck, prog, config, 'C02-f')
         # ---- e
         um = [f for f in prog.by_name.get('main', []) if f.unit.endswith('unzck.c')]
         ck.require(len(um) == 1, 'unzck main not found')
